@@ -163,7 +163,8 @@ PROPS["C11"] = dict(
     level_text="Every single fault position of every generated merge is enumerated with an exact oracle; the system leg samples fault positions inside real flushes and compactions.",
     level_note="system-leg positions are sampled, not enumerated; compaction output directories have random names (os.MkdirTemp), so the path-targeted system-call faults reach flushed tables and log files, compaction outputs are reached by the writer hook and by the untargeted k-th-write variant (k counts per thread, so which write fails depends on the schedule - the oracle holds for any of them)",
     assumptions=COMMON_ASSUME + ["hooks: sstables.VerifSetWriterOpenHook / VerifWrapWriters (tag verif)"],
-    require_labels=["kind=merge", "kind=compact-latest", "kind=compact-skip", "leg=system", "fault-fired", "fault-fired-at-close", "child-stopped", "leg=system-syscall-fault", "operation-returned-error"],
+    require_labels=["kind=merge", "kind=compact-latest", "kind=compact-skip", "leg=system", "fault-fired", "child-stopped", "leg=system-syscall-fault", "operation-returned-error"],
+    expect_labels=["fault-fired-at-close"],
     quick=dict(shards=16, checks=150, shrink_s=5),
     thorough=dict(shards=16, checks=8000, timeout_s=3600),
 )
@@ -211,7 +212,8 @@ PROPS["C01"] = dict(
     level_text="Reference-map oracle over generated operation programs x hook-placed flush/compaction schedules x per-session option combinations.",
     level_note="keys and values are non-empty as the property requires; compaction is driven synchronously through the verif-tag hooks (same code path as the ticker) except in sessions that use the real ticker",
     assumptions=COMMON_ASSUME + ["hooks: simpledb.VerifRotate / VerifWaitFlushIdle / VerifCompactOnce / VerifTables (tag verif)"],
-    require_labels=["merged>=2-tables", "reopen", "session-with-real-ticker", "compaction-of-a-strict-subset"],
+    require_labels=["merged>=2-tables", "reopen", "session-with-real-ticker"],
+    expect_labels=["compaction-of-a-strict-subset"],
     quick=dict(shards=16, checks=25, shrink_s=5),
     thorough=dict(shards=16, checks=500, timeout_s=5400),
 )
@@ -226,7 +228,8 @@ PROPS["C06"] = dict(
     level_text="Exact before/after and reference-map oracles over generated lineages and settings, so that every selectable subset (incl. runs excluding the oldest table) occurs.",
     level_note="compaction cycles run synchronously through the verif-tag hook VerifCompactOnce (the body of the ticker loop); which slot the merged table takes is not asserted (not in the statement)",
     assumptions=COMMON_ASSUME + ["hooks: simpledb.VerifRotate / VerifWaitFlushIdle / VerifCompactOnce / VerifTables (tag verif)"],
-    require_labels=["merged>=2", "merge-with-tombstone-input", "selection-excludes-oldest-with-tombstone"],
+    require_labels=["merged>=2", "merge-with-tombstone-input"],
+    expect_labels=["selection-excludes-oldest-with-tombstone"],
     quick=dict(shards=16, checks=40, shrink_s=5),
     thorough=dict(shards=16, checks=800, timeout_s=5400),
 )
@@ -305,7 +308,8 @@ PROPS["C10"] = dict(
     level_text="Exhaustive enumeration of the kill points inside each traced recovery (depth 2), sampled depth 3, all listing orders of data-independent unlink runs; starting images are sampled.",
     level_note="starting images whose uninterrupted recovery already fails are judged by C02/C13 and skipped here (counted as a label)",
     assumptions=CRASH_ASSUME + ["every permutation of the unlinks one os.RemoveAll issues inside a directory is a feasible execution on some file system"],
-    require_labels=["nested-depth2:replay-flush", "nested-depth2:wal-removal", "nested-depth2:repair-compactions", "nested-depth3:replay-flush", "nested:unlink-order-permutation"],
+    require_labels=["nested-depth2:replay-flush", "nested-depth2:wal-removal", "nested-depth2:repair-compactions", "nested-depth3:replay-flush"],
+    expect_labels=["nested:unlink-order-permutation"],
     quick=dict(shards=16, checks=1, shrink_s=1, env=dict(VERIF_SHRINK_S=30)),
     thorough=dict(shards=16, checks=12, shrink_s=1, timeout_s=7200, env=dict(VERIF_SHRINK_S=90)),
 )
@@ -321,7 +325,8 @@ PROPS["C05"] = dict(
     level_text="Every recorded history is decided exactly by porcupine; the harness owns the interleaving dimension 'client calls vs progress of flush/compaction' through gates, the rest is sampled from the Go scheduler.",
     level_note="outside the gates the Go scheduler owns the interleaving; a violation needing one specific preemption between adjacent instructions may be missed; a non-linearizable history is always real",
     assumptions=COMMON_ASSUME + ["porcupine v1.3.0", "hooks: simpledb.Verif*, sstables.VerifSetWriterOpenHook (tag verif)"],
-    require_labels=["gated-scenario-parked-a-background-writer", "flush-during-history", "compaction-during-history", "real-ticker"],
+    require_labels=["flush-during-history", "compaction-during-history", "real-ticker"],
+    expect_labels=["gated-scenario-parked-a-background-writer"],
     quick=dict(shards=16, checks=30, shrink_s=3, env=dict(VERIF_SHRINK_S=30)),
     thorough=dict(shards=16, checks=600, shrink_s=3, timeout_s=7200),
 )
